@@ -138,15 +138,15 @@ pub fn run(ctx: &Ctx) -> i32 {
             let ro = bind::observe(&r);
             let O::Node(_, rs, ra) = &ro else { acc.viol(format!("C17|add_assertion_salted|{vn}|not-a-node"), "", cid(), json!({})); continue };
             let O::Node(_, hs, ha) = &horig else { unreachable!() };
-            if rs != hs || !ha.iter().all(|x| ra.contains(x)) || ra.len() != ha.len() + 1 { acc.viol(format!("C17|add_assertion_salted|{vn}|content-changed"), "subject or existing assertions changed, or not exactly one element added", cid(), json!({"got": r.format_flat()})); continue }
+            if rs != hs || !ha.iter().all(|x| ra.contains(x)) || ra.len() != ha.len() + 1 { acc.viol(format!("C17|add_assertion_salted|{vn}|content-changed"), "subject or existing assertions changed, or not exactly one element added", cid(), json!({"got": crate::report::ff(&r)})); continue }
             let newel = ra.iter().find(|x| !ha.contains(x)).unwrap();
             // the added element: a node whose subject is the assertion as given, carrying exactly one salt assertion
             match salt_added(&bind::observe(a), newel) {
-                Err(cl) => acc.viol(format!("C17|add_assertion_salted|{vn}|{cl}"), "the salted assertion does not carry exactly one salt assertion of its own over the unchanged assertion", cid(), json!({"got": r.format_flat()})),
+                Err(cl) => acc.viol(format!("C17|add_assertion_salted|{vn}|{cl}"), "the salted assertion does not carry exactly one salt assertion of its own over the unchanged assertion", cid(), json!({"got": crate::report::ff(&r)})),
                 Ok(l) => { let s = a.to_cbor_data().len(); let (lo, hi) = size_range(s); if l < lo || l > hi { acc.viol(format!("C17|add_assertion_salted|{vn}|length-outside-range"), format!("salt length {l} outside {lo}..={hi} for assertion size {s}"), cid(), json!({})) } }
             }
             if *vn == "plain" || *vn == "big-object" {
-                match catch(|| r.assertions_with_predicate("sp")) { Ok(f) => if f.len() != (if hn.starts_with("holds") { 2 } else { 1 }) { acc.viol(format!("C17|add_assertion_salted|{vn}|not-found-by-predicate"), "the salted assertion is not found by its predicate", cid(), json!({"got": r.format_flat()})) }, Err(_) => acc.inc("panics_counted_under_C16") }
+                match catch(|| r.assertions_with_predicate("sp")) { Ok(f) => if f.len() != (if hn.starts_with("holds") { 2 } else { 1 }) { acc.viol(format!("C17|add_assertion_salted|{vn}|not-found-by-predicate"), "the salted assertion is not found by its predicate", cid(), json!({"got": crate::report::ff(&r)})) }, Err(_) => acc.inc("panics_counted_under_C16") }
             }
             digests.insert(bind::dg(&r));
         }
@@ -159,7 +159,7 @@ pub fn run(ctx: &Ctx) -> i32 {
     }
     let host = host0.clone();
     for rep in 0..4 { acc.inc("salted_adds"); let r = host.add_assertion_salted("sp", "so", true); if r.assertions_with_predicate("sp").len() != 1 { acc.viol("C17|add_assertion_salted|pred-obj|not-found-by-predicate", "", format!("salted-add/predobj/rep{rep}"), json!({})) } let u = host.add_assertion_salted("sp", "so", false); if u.to_cbor_data() != host.add_assertion("sp", "so").to_cbor_data() { acc.viol("C17|add_assertion_salted|pred-obj|unsalted-differs", "", format!("salted-add/predobj/unsalted{rep}"), json!({})) } }
-    { acc.inc("salted_adds"); let many = host.add_assertions_salted(&[pa.clone(), Envelope::new_assertion("sq", "sr")], true); if many.assertions().len() != 3 || many.assertions_with_predicate(known_values::SALT).len() != 0 { acc.viol("C17|add_assertions_salted|shape", "add_assertions_salted did not add two decorated assertions", "salted-add/many", json!({"got": many.format_flat()})) } }
+    { acc.inc("salted_adds"); let many = host.add_assertions_salted(&[pa.clone(), Envelope::new_assertion("sq", "sr")], true); if many.assertions().len() != 3 || many.assertions_with_predicate(known_values::SALT).len() != 0 { acc.viol("C17|add_assertions_salted|shape", "add_assertions_salted did not add two decorated assertions", "salted-add/many", json!({"got": crate::report::ff(&many)})) } }
     // production entry points (OS randomness): smoke, labelled as such
     let e = Envelope::new("Hello"); let orig = bind::observe(&e);
     for rep in 0..64 {
